@@ -21,9 +21,7 @@ def taggedWith (H : Bytes → Bytes) (tag m : Bytes) : Bytes :=
 
 def paramsOf (c : EC.Curve) (hf : String) : Option Params := do
   let (H, len) ← hashOfToken hf
-  let nlen := Py.natBitLength c.n.toNat
-  pure { pSize := (Py.natBitLength c.p.toNat + 7) / 8, nSize := (nlen + 7) / 8, nlen := nlen, hfLen := len,
-         TH := if hf == "sha256" then taggedHash else taggedWith H }
+  pure (Params.ofCurve c len (if hf == "sha256" then taggedHash else taggedWith H))
 
 def FUEL : Nat := 10000
 
